@@ -220,7 +220,12 @@ for _p, (_r, _ops, _nl, _qp, _tp) in TP.items():
     # the driver only executes the functions the property judges (operand streams are unchanged)
     _st["args"] = ["--fns", ",".join(_ops + (["powi"] if _p == "C12" else []))] if _p != "C12" else []
     _sw = [(f, "i") for f in _ops if f not in ("pow", "powi")] + ([("sqrt", "u")] if "sqrt" in _ops else [])
-    PLANS[_p] = dict(module="transm", streams=[_st], profiles=_tp, quick_profiles=_qp, rule=TRANS_RULE + _r,
+    # quick: a light release-profile pass over ALL math-function type pairs (the thorough bins) next to the 40 named ones
+    _lt = S("trans", chunks={"quick": TRANS_ALL, "thorough": []}, n={"quick": 200, "thorough": 0}, shards={"quick": 2, "thorough": 1},
+            only_profiles=["release"])
+    _lt["args"] = _st["args"]
+    _nl = {"quick": _nl["thorough"], "thorough": _nl["thorough"]}
+    PLANS[_p] = dict(module="transm", streams=[_st, _lt], profiles=_tp, quick_profiles=_qp, rule=TRANS_RULE + _r,
                      need_ops=_ops, nlay=_nl, sweeps=_sw)
 
 
